@@ -150,11 +150,12 @@ func Spec(prop, tier string) *core.CheckSpec {
 			Rule: "2-4 runtimes per run, each a simulator task creating its runtime, loading the libraries, running a generated program that mutates globals, library functions, the string metatable, metatables of basic types, the random seed and package tables, and closing; the tape interleaves the tasks at every host callback; oracle: each runtime's event log and outcome equal the log of the same program run alone; race build: no data race report. non-trivial = at least one non-default scheduling decision; distinct = hash(programs, decision vector)",
 			Batches: []core.Batch{
 				{Engine: "iso", Mode: "", Runs: n(8000, 800000), Millis: ms(30000, 600000), Chunk: 500},
-				{Engine: "iso", Mode: "", Variant: "race", Runs: n(1500, 200000), Millis: ms(30000, 600000), HangS: 120, Chunk: 300},
+				{Engine: "iso", Mode: "", Variant: "race", Runs: n(1500, 200000), Millis: ms(25000, 600000), HangS: 120, Chunk: 300},
+				{Engine: "iso", Mode: "par", Variant: "race", Runs: n(800, 100000), Millis: ms(20000, 400000), HangS: 120, Chunk: 100, Sound: true, Env: []string{"GOMAXPROCS=4"}, Workers: 4, Note: "runtimes on truly concurrent goroutines, no scheduler; only race reports and repeatable differences count"},
 			},
 			Real:   realAll,
 			Stub:   []string{"which runtime's goroutine proceeds at each host callback / coroutine hand-off (controlled scheduler)"},
-			Assume: []string{"true parallel execution is not used: the race detector works from happens-before, which the un-instrumented parking of the scheduler leaves untouched"},
+			Assume: []string{"the controlled batches serialise execution: the race detector works from happens-before, which the un-instrumented parking of the scheduler leaves untouched; the parallel batch is not replayable and reports only race-detector findings and differences that reproduce"},
 		}
 	case "C07":
 		return &core.CheckSpec{
